@@ -33,8 +33,8 @@ fn main() {
     {
         subs.extend(simd::subs(&args));
         subs.extend(scalar::subs(&args));
-        // the libm build is part of the thorough tier only (DESIGN C11, B line); replays always see it
-        if args.tier == Tier::Thorough || args.replay.is_some() || args.only.as_deref().map_or(false, |o| o.contains("libm")) {
+        // the libm build runs in every tier (a change confined to the libm math shims is invisible otherwise)
+        {
             subs.extend(libmv::subs(&args));
         }
     }
